@@ -444,6 +444,67 @@ class Check(PropertyCheck):
             finally:
                 d.close()
         rep.cov["operation_timeout_arguments"] = n
+        # the same operation twice in a row from one coroutine, no loop iteration in between; the first one's response and
+        # matching event are handled in ONE iteration (one serial read), response first: the second still observes its event
+        import bellows.types as t
+        nb2b = 0
+        for kind in ("leave", "form"):
+            d = Driver()
+            res = {}
+            try:
+                st_ok = t.EmberStatus.SUCCESS
+                ev = t.EmberStatus.NETWORK_DOWN if kind == "leave" else t.EmberStatus.NETWORK_UP
+
+                async def once():
+                    if kind == "leave":
+                        await d.ez.leaveNetwork()
+                    else:
+                        await d.ez.formNetwork(t.EmberNetworkParameters())
+
+                async def go():
+                    try:
+                        await once()
+                        res["first"] = "ok"
+                        await once()
+                        res["second"] = "ok"
+                    except asyncio.TimeoutError:
+                        res.setdefault("first", "-")
+                        res["second" if res.get("first") == "ok" else "first"] = "timeout"
+                    except BaseException as e:  # noqa
+                        res["error"] = type(e).__name__
+                task = d.loop.create_task(go())
+                d.loop.settle()
+                name, fut = d.pending_cmd
+                d.pending_cmd = None
+                fut.set_result([st_ok])                                   # the response ...
+                d.ez.handle_callback("stackStatusHandler", [ev])          # ... and the event, same loop iteration
+                d.loop.settle()
+                if d.pending_cmd is not None:
+                    name, fut = d.pending_cmd
+                    d.pending_cmd = None
+                    fut.set_result([st_ok])
+                    d.loop.settle()
+                    d.ez.handle_callback("stackStatusHandler", [ev])
+                    d.loop.settle()
+                guard = 0
+                while not task.done() and guard < 10:
+                    guard += 1
+                    d.loop.tick()
+                nb2b += 1
+                if res != {"first": "ok", "second": "ok"}:
+                    rep.violation({"input": {"operation": kind, "twice": "back to back from one coroutine",
+                                             "first": "response and matching event handled in one loop iteration",
+                                             "second": "response, then the matching event"},
+                                   "observed": res, "required": "each operation observes the matching event that arrives after its "
+                                                                "command was issued"}, found_input=True, signature="events:back-to-back")
+                    break
+            except BaseException as e:  # noqa
+                rep.violation({"input": {"operation": kind}, "observed": repr(e), "required": "scenario runs"}, found_input=True,
+                              signature="events:back-to-back")
+                break
+            finally:
+                d.close()
+        rep.cov["back_to_back_operations"] = nb2b
 
     def nontrivial(self, case, obs):
         return any(e[0] == "start" for e in case) and len(case) > 1
